@@ -26,7 +26,7 @@ import (
 
 func TestMain(m *testing.M) { drv.Main(m) }
 
-const rule = "state machine on the real application (tx semantics): 3 funded actors and one poor actor (1000 units of each denom: its messages mostly name amounts it does not own and must fail as a whole), 5 shared denoms; create balancer pools (2-5 assets, weights 1..2^20-1, spread 0..5%; a third of them weight-changing: start now..+1h, duration 1m..1d, target entries carrying creation amounts, zero or arbitrary token fields) with block time advancing by 1s..3d between messages, and stableswap pools (2-5 assets, scaling factors 1..1e6), MsgJoinPool, MsgJoinSwapExternAmountIn, MsgJoinSwapShareAmountOut, MsgExitPool (incl. dust exits of 1..1000 share units), MsgExitSwapShareAmountIn, MsgExitSwapExternAmountOut, 1-3 hop MsgSwapExactAmountIn/Out (a fifth of the exact-in swaps with a minimum output that cannot be met: computed, then rejected), split routes exact-in and exact-out through poolmanager, two-message transactions whose second message fails (the first message's swap is rolled back with it), direct bank sends to a pool address, default/per-pair taker fee changes; oracle after every step: bank balance of each pool account == reserves the pool reports + directly sent, bank supply of each gamm/pool/N == total shares the pool reports, supply of every non-share denom unchanged, and around every message the balance deltas of all tracked accounts (actors, pools, every module account) sum to zero per denom; single-hop swaps: taker-fee collector receives exactly in - floor(in(1-f)) (exact in) or ceil(x/(1-f)) - x (exact out); failed messages leave the digest unchanged; non-trivial = >= 2 pools touched, a multi-hop swap, a single-asset join or exit and a failed message; distinct by history hash"
+const rule = "state machine on the real application (tx semantics): 3 funded actors and one poor actor (1000 units of each denom: its messages mostly name amounts it does not own and must fail as a whole), 5 shared denoms; half of the stableswap pools with a scaling-factor controller who re-scales the live pool (others rejected); create balancer pools (2-5 assets, weights 1..2^20-1, spread 0..5%; a third of them weight-changing: start now..+1h, duration 1m..1d, target entries carrying creation amounts, zero or arbitrary token fields) with block time advancing by 1s..3d between messages, and stableswap pools (2-5 assets, scaling factors 1..1e6), MsgJoinPool, MsgJoinSwapExternAmountIn, MsgJoinSwapShareAmountOut, MsgExitPool (incl. dust exits of 1..1000 share units), MsgExitSwapShareAmountIn, MsgExitSwapExternAmountOut, 1-3 hop MsgSwapExactAmountIn/Out (a fifth of the exact-in swaps with a minimum output that cannot be met: computed, then rejected), split routes exact-in and exact-out through poolmanager, two-message transactions whose second message fails (the first message's swap is rolled back with it), direct bank sends to a pool address, default/per-pair taker fee changes; oracle after every step: bank balance of each pool account == reserves the pool reports + directly sent, bank supply of each gamm/pool/N == total shares the pool reports, supply of every non-share denom unchanged, and around every message the balance deltas of all tracked accounts (actors, pools, every module account) sum to zero per denom; single-hop swaps: taker-fee collector receives exactly in - floor(in(1-f)) (exact in) or ceil(x/(1-f)) - x (exact out); failed messages leave the digest unchanged; non-trivial = >= 2 pools touched, a multi-hop swap, a single-asset join or exit and a failed message; distinct by history hash"
 
 var denoms = []string{"aaa", "bbb", "ccc", "ddd", "uosmo"}
 
